@@ -40,6 +40,8 @@ type Safe struct {
 	allocIdx map[string]int
 	wrapAtoms map[string]atomID
 	wrapSrc   map[atomID]*Lin
+	divMemo   map[string][2]atomID
+	fullyInit map[*AObj]bool // objects every element of which has been stored (composite literals)
 	LenRule   bool // evaluate the length-covers rule at returns of serialisers
 	Quiet     bool // do not record panic obligations (serialiser runs)
 	// configuration
